@@ -57,7 +57,9 @@ type Member struct {
 	Codes    []int  // admissible error codes for ErrorReply
 	Handler  bool   // a handler must run exactly once (false: none may run)
 	Consumed bool   // the member is a reply consumed by an outstanding callback
-	DontCare string // non-empty: which don't-care class applies (Reply == AnyReply, or relaxed checks)
+	// IDUncertain: the member has several "id" keys, so the id a parser sees is unspecified.
+	IDUncertain bool
+	DontCare    string // non-empty: which don't-care class applies (Reply == AnyReply, or relaxed checks)
 
 	Method string
 	IDText string // "" when absent or null
@@ -130,7 +132,7 @@ func Classify(cfg Config, rec []byte) Record {
 		// property only speaks about two *requests* with one id.
 		mixed := false
 		for _, i := range idx {
-			if c := out.Members[i].Class; c == ReplyShaped || c == Neither {
+			if c := out.Members[i].Class; c == ReplyShaped || c == Neither || out.Members[i].IDUncertain {
 				mixed = true
 			}
 		}
@@ -206,6 +208,12 @@ func classifyMember(cfg Config, raw []byte) Member {
 				}
 			}
 		case "id":
+			if keys["\x00id-seen"] {
+				// two "id" keys: which one a parser keeps is not specified, so neither
+				// this member's id nor its clash with another member's is decidable
+				m.IDUncertain = true
+			}
+			keys["\x00id-seen"] = true
 			switch kindOf(v) {
 			case 's', 'n':
 				m.HasID, m.IDText, m.Echo = true, string(v), string(v)
